@@ -1,7 +1,9 @@
 // C01/C02 correspondence harness: replays operation histories on tlx::btree_{set,multiset,map,multimap}
 // (counting allocator, lifetime-tracked element types, ASan/UBSan) next to the std ordered containers.
 // Operation names: I/Ih/I2/Ih2/Ib/IR (insert overloads), E1 EK EI, F X C L U R (+ suffix c: through a const reference),
-// T (iteration, all four iterator kinds, size/empty/max_size/key_comp/value_comp/get_allocator), CL AS CC SW/SWs CMP B CR.
+// T (iteration, all four iterator kinds, size/empty/max_size/key_comp/value_comp/get_allocator), CL AS CC SW/SWs/SWt CMP B CR,
+// NC,i,dir,arena (re-create variable i empty with comparator state dir over allocator arena).  The comparator is
+// stateful (run-time direction) and the allocator has per-instance identity (three arenas with their own ledgers).
 // Prints ONE line per case: one token per operation
 //     <result>/<allocs>.<frees>.<leaves>.<inner>.<size>      (/VERIFYFAIL:... if verify() throws)
 // then " final=..." (ledger verdict after destruction) and, if a result differs from the std container's,
@@ -40,8 +42,64 @@ using verif::Tracked;
 static inline int kval(int x) { return x; }
 static inline int kval(const Tracked& t) { return t.get(); }
 
-template <class Key> struct Less { bool operator()(const Key& a, const Key& b) const { return kval(a) < kval(b); } };
-template <class Key> struct Greater { bool operator()(const Key& a, const Key& b) const { return kval(b) < kval(a); } };
+// Stateful comparator: the sort direction is a run-time flag of the INSTANCE (default state = GT), so that
+// container variables of one type can order differently and the comparator has to travel with the tree.
+template <class Key, bool GT> struct DirCmp {
+    bool gt;
+    DirCmp() : gt(GT) {}
+    explicit DirCmp(bool g) : gt(g) {}
+    bool operator()(const Key& a, const Key& b) const { return gt ? kval(b) < kval(a) : kval(a) < kval(b); }
+};
+
+// Allocator with per-instance identity: every instance belongs to an arena (id); operator== compares ids;
+// each arena keeps its own ledger; a block must be returned through the arena it came from.  The totals also
+// go to verif::AllocLedger (per-operation deltas, leak check).
+struct Arenas {
+    std::map<const void*, int> owner;          // live block -> arena that allocated it
+    std::map<int, long> allocs, frees;
+    static Arenas& get() { static Arenas a; return a; }
+};
+template <typename T>
+struct ArenaAlloc {
+    using value_type = T;
+    using size_type = std::size_t;
+    using difference_type = std::ptrdiff_t;
+    using pointer = T*;
+    using const_pointer = const T*;
+    using reference = T&;
+    using const_reference = const T&;
+    template <typename U> struct rebind { using other = ArenaAlloc<U>; };
+    int id;
+    ArenaAlloc() noexcept : id(0) {}
+    explicit ArenaAlloc(int i) noexcept : id(i) {}
+    template <typename U> ArenaAlloc(const ArenaAlloc<U>& o) noexcept : id(o.id) {}
+    T* allocate(size_t n) {
+        T* p = std::allocator<T>().allocate(n ? n : 1);
+        auto& L = verif::AllocLedger::get(); ++L.allocs; L.blocks[p] = n;
+        auto& A = Arenas::get(); A.owner[p] = id; ++A.allocs[id];
+        return p;
+    }
+    void deallocate(T* p, size_t n) {
+        if (p == nullptr) return;
+        auto& L = verif::AllocLedger::get(); auto& A = Arenas::get();
+        auto it = L.blocks.find(p);
+        if (it == L.blocks.end()) { L.err("deallocate of unknown/freed block", p); return; }
+        if (it->second != n) L.err("deallocate with wrong size", p);
+        if (A.owner[p] != id) L.err("deallocate through a foreign arena", p);
+        A.owner.erase(p); ++A.frees[id];
+        L.blocks.erase(it); ++L.frees;
+        std::allocator<T>().deallocate(p, n ? n : 1);
+    }
+    template <typename U, typename... Args> void construct(U* p, Args&&... args) { ::new (static_cast<void*>(p)) U(std::forward<Args>(args)...); }
+    template <typename U> void destroy(U* p) { p->~U(); }
+    template <typename U> bool operator==(const ArenaAlloc<U>& o) const { return id == o.id; }
+    template <typename U> bool operator!=(const ArenaAlloc<U>& o) const { return id != o.id; }
+};
+// an allocator of arena `id` where the container's allocator has arenas (tlx side), a default one otherwise
+template <class X> static typename X::allocator_type make_alloc(int id) {
+    if constexpr (std::is_constructible<typename X::allocator_type, int>::value) return typename X::allocator_type(id);
+    else return typename X::allocator_type();
+}
 
 template <int L, int I, bool BIN>
 struct Tr {
@@ -58,7 +116,7 @@ struct Tr {
 template <bool GT>
 struct setB {     // set<Tracked>: heap-owning keys in leaves and inner nodes
     typedef Tracked Key;
-    typedef typename std::conditional<GT, Greater<Key>, Less<Key>>::type Cmp;
+    typedef DirCmp<Key, GT> Cmp;
     typedef std::set<Key, Cmp> S;
     static const bool dup = false, ismap = false;
     static Key mk(int k, int) { return Key(k); }
@@ -68,12 +126,12 @@ struct setB {     // set<Tracked>: heap-owning keys in leaves and inner nodes
 template <bool GT, int L, int I, bool BIN>
 struct setK {
     typedef setB<GT> B;
-    typedef tlx::btree_set<typename B::Key, typename B::Cmp, Tr<L, I, BIN>, verif::CountingAlloc<typename B::Key>> C;
+    typedef tlx::btree_set<typename B::Key, typename B::Cmp, Tr<L, I, BIN>, ArenaAlloc<typename B::Key>> C;
 };
 template <bool GT>
 struct msetB {    // multiset<int>: trivial element type
     typedef int Key;
-    typedef typename std::conditional<GT, Greater<Key>, Less<Key>>::type Cmp;
+    typedef DirCmp<Key, GT> Cmp;
     typedef std::multiset<Key, Cmp> S;
     static const bool dup = true, ismap = false;
     static Key mk(int k, int) { return k; }
@@ -83,13 +141,13 @@ struct msetB {    // multiset<int>: trivial element type
 template <bool GT, int L, int I, bool BIN>
 struct msetK {
     typedef msetB<GT> B;
-    typedef tlx::btree_multiset<typename B::Key, typename B::Cmp, Tr<L, I, BIN>, verif::CountingAlloc<typename B::Key>> C;
+    typedef tlx::btree_multiset<typename B::Key, typename B::Cmp, Tr<L, I, BIN>, ArenaAlloc<typename B::Key>> C;
 };
 template <bool GT>
 struct mapB {     // map<int, Tracked>
     typedef int Key;
     typedef Tracked Data;
-    typedef typename std::conditional<GT, Greater<Key>, Less<Key>>::type Cmp;
+    typedef DirCmp<Key, GT> Cmp;
     typedef std::map<Key, Data, Cmp> S;
     static const bool dup = false, ismap = true;
     static std::pair<Key, Data> mk(int k, int d) { return std::pair<Key, Data>(k, Data(d)); }
@@ -100,13 +158,13 @@ template <bool GT, int L, int I, bool BIN>
 struct mapK {
     typedef mapB<GT> B;
     typedef tlx::btree_map<typename B::Key, typename B::Data, typename B::Cmp, Tr<L, I, BIN>,
-                           verif::CountingAlloc<std::pair<typename B::Key, typename B::Data>>> C;
+                           ArenaAlloc<std::pair<typename B::Key, typename B::Data>>> C;
 };
 template <bool GT>
 struct mmapB {    // multimap<Tracked, int>
     typedef Tracked Key;
     typedef int Data;
-    typedef typename std::conditional<GT, Greater<Key>, Less<Key>>::type Cmp;
+    typedef DirCmp<Key, GT> Cmp;
     typedef std::multimap<Key, Data, Cmp> S;
     static const bool dup = true, ismap = true;
     static std::pair<Key, Data> mk(int k, int d) { return std::pair<Key, Data>(Key(k), d); }
@@ -117,7 +175,7 @@ template <bool GT, int L, int I, bool BIN>
 struct mmapK {
     typedef mmapB<GT> B;
     typedef tlx::btree_multimap<typename B::Key, typename B::Data, typename B::Cmp, Tr<L, I, BIN>,
-                                verif::CountingAlloc<std::pair<typename B::Key, typename B::Data>>> C;
+                                ArenaAlloc<std::pair<typename B::Key, typename B::Data>>> C;
 };
 
 // ------------------------------------------------------------------ structure dump through the friend door
@@ -139,6 +197,8 @@ struct BtAccess {
             out += ']';
         }
     }
+    // BTree::swap on the underlying trees (the facades' own swap() goes through std::swap of the trees)
+    template <class C> static void tree_swap(C& a, C& b) { a.tree_.swap(b.tree_); }
     template <class C>
     static std::string dump(const C& c) {
         typedef typename C::btree_impl BT;
@@ -170,6 +230,7 @@ static std::vector<Op> parse_ops(std::istringstream& in) {
 static void reset_ledgers() {
     auto& L = verif::Ledger::get(); L.live.clear(); L.constructed = L.destroyed = L.errors = 0; L.first_error.clear();
     auto& A = verif::AllocLedger::get(); A.blocks.clear(); A.allocs = A.frees = A.errors = 0; A.first_error.clear();
+    auto& R = Arenas::get(); R.owner.clear(); R.allocs.clear(); R.frees.clear();
 }
 static std::string final_status() {
     auto& L = verif::Ledger::get(); auto& A = verif::AllocLedger::get();
@@ -177,6 +238,9 @@ static std::string final_status() {
     if (A.errors) return "bad:" + A.first_error.substr(0, A.first_error.find(" @"));
     if (!L.live.empty()) return "bad:leaked elements";
     if (!A.blocks.empty()) return "bad:leaked blocks";
+    auto& R = Arenas::get();
+    for (auto& kv : R.allocs) if (R.frees[kv.first] != kv.second) return "bad:arena " + std::to_string(kv.first) + " unbalanced";
+    for (auto& kv : R.frees) if (R.allocs[kv.first] != kv.second) return "bad:arena " + std::to_string(kv.first) + " unbalanced";
     return "ok";
 }
 
@@ -186,6 +250,9 @@ template <class Y, class = void> struct has_insert2 : std::false_type {};
 template <class Y>
 struct has_insert2<Y, decltype(void(std::declval<Y&>().insert2(std::declval<const typename Y::key_type&>(),
                                                                  std::declval<const typename Y::value_type&>().second)))> : std::true_type {};
+
+template <class Y, class = void> struct is_tlx : std::false_type {};
+template <class Y> struct is_tlx<Y, decltype(void(sizeof(typename Y::btree_impl)))> : std::true_type {};
 
 template <class KD, class X> struct Ops {
     typedef typename X::iterator It;
@@ -331,6 +398,21 @@ template <class KD, class X> struct Ops {
         for (size_t i = 0; i < fwd.size(); ++i) { if (i) s += ','; s += std::to_string(fwd[i].first) + "." + std::to_string(fwd[i].second); }
         return s;
     }
+    // after a whole-container operation: the tree must be consistent with the comparator it NOW carries
+    static std::string selfcheck(X& x) {
+        typename X::key_compare kc = x.key_comp();
+        bool have = false; int prev = 0; size_t n = 0;
+        for (It y = x.begin(); y != x.end(); ++y, ++n) {
+            int k = KD::kof(*y);
+            if (have && kc(mkkey(k), mkkey(prev))) return "!unsorted-for-current-comparator";
+            It f = x.find(mkkey(k));
+            if (f == x.end() || !equiv(x, KD::kof(*f), k)) return "!find-misses-stored-key";
+            if (x.count(mkkey(k)) == 0) return "!count-misses-stored-key";
+            have = true; prev = k;
+        }
+        if (n != x.size()) return "!size";
+        return "";
+    }
     static std::string compare(X& a, X& b) {
         bool eq = (a == b), ne = (a != b), lt = (a < b), gt = (a > b), le = (a <= b), ge = (a >= b);
         if (ne != !eq || le != !gt || ge != !lt) return "M!inconsistent";
@@ -378,17 +460,26 @@ static std::string do_op(std::unique_ptr<X>* c, const Op& o) {
         c[f[0]].reset();
         switch (f[1] % 4) {
         case 0: c[f[0]].reset(new X(v.begin(), v.end())); break;
-        case 1: c[f[0]].reset(new X(v.begin(), v.end(), typename X::allocator_type())); break;
+        case 1: c[f[0]].reset(new X(v.begin(), v.end(), make_alloc<X>((f[1] / 4) % 3))); break;
         case 2: c[f[0]].reset(new X(v.begin(), v.end(), typename X::key_compare())); break;
-        default: c[f[0]].reset(new X(v.begin(), v.end(), typename X::key_compare(), typename X::allocator_type())); break;
+        default: c[f[0]].reset(new X(v.begin(), v.end(), typename X::key_compare(), make_alloc<X>((f[1] / 4) % 3))); break;
         }
-        return "-";
+        return "-" + O::selfcheck(*c[f[0]]);
+    }
+    if (n == "NC") {      // destroy the variable, re-create it empty with comparator state f[1] over arena f[2]
+        c[f[0]].reset();
+        c[f[0]].reset(new X(typename X::key_compare(f[1] != 0), make_alloc<X>(f[2])));
+        return "-" + O::selfcheck(*c[f[0]]);
+    }
+    if (n == "SWt") {     // BTree::swap called directly on the underlying trees (std: member swap)
+        if constexpr (is_tlx<X>::value) BtAccess::tree_swap(x, *c[f[1]]); else x.swap(*c[f[1]]);
+        return "-" + O::selfcheck(x) + O::selfcheck(*c[f[1]]);
     }
     if (n == "Fc") return "F" + O::cpos(cx, cx.find(O::mkkey(f[1])));
     if (n == "Lc") return "L" + O::cpos(cx, cx.lower_bound(O::mkkey(f[1])));
     if (n == "Uc") return "U" + O::cpos(cx, cx.upper_bound(O::mkkey(f[1])));
     if (n == "Rc") { auto p = cx.equal_range(O::mkkey(f[1])); return "R" + O::cpos(cx, p.first) + "-" + O::cpos(cx, p.second); }
-    if (n == "SWs") { using std::swap; swap(x, *c[f[1]]); return "-"; }
+    if (n == "SWs") { using std::swap; swap(x, *c[f[1]]); return "-" + O::selfcheck(x) + O::selfcheck(*c[f[1]]); }
     if (n == "E1") return api_erase_one(x, O::mkkey(f[1]), 0) ? "E1" : "E0";
     if (n == "EK") return "K" + std::to_string(x.erase(O::mkkey(f[1])));
     if (n == "EI") { typename X::iterator it; if (!O::locate(x, f[1], KD::ismap ? f[2] : 0, f[3], it)) return "D-"; x.erase(it); return "D1"; }
@@ -400,9 +491,9 @@ static std::string do_op(std::unique_ptr<X>* c, const Op& o) {
     if (n == "R") { auto p = x.equal_range(O::mkkey(f[1])); return "R" + O::pos(x, p.first) + "-" + O::pos(x, p.second); }
     if (n == "T") return O::iterate(x);
     if (n == "CL") { x.clear(); return "-"; }
-    if (n == "AS") { x = *c[f[1]]; return "-"; }
-    if (n == "CC") { if (f[0] == f[1]) return "?"; c[f[0]].reset(); const X& src = *c[f[1]]; c[f[0]].reset(new X(src)); return "-"; }
-    if (n == "SW") { x.swap(*c[f[1]]); return "-"; }
+    if (n == "AS") { x = *c[f[1]]; return "-" + O::selfcheck(x); }
+    if (n == "CC") { if (f[0] == f[1]) return "?"; c[f[0]].reset(); const X& src = *c[f[1]]; c[f[0]].reset(new X(src)); return "-" + O::selfcheck(*c[f[0]]); }
+    if (n == "SW") { x.swap(*c[f[1]]); return "-" + O::selfcheck(x) + O::selfcheck(*c[f[1]]); }
     if (n == "CMP") return O::compare(x, *c[f[1]]);
     if (n == "B") {
         if (!x.empty()) return "?";
@@ -415,7 +506,7 @@ static std::string do_op(std::unique_ptr<X>* c, const Op& o) {
 }
 
 static bool mutating(const std::string& n) {
-    return n == "I" || n == "Ih" || n == "I2" || n == "Ih2" || n == "Ib" || n == "IR" || n == "CR" || n == "SWs" || n == "E1" || n == "EK" || n == "EI" || n == "CL" || n == "AS" || n == "CC" || n == "SW" || n == "B";
+    return n == "I" || n == "Ih" || n == "I2" || n == "Ih2" || n == "Ib" || n == "IR" || n == "CR" || n == "NC" || n == "SWs" || n == "SWt" || n == "E1" || n == "EK" || n == "EI" || n == "CL" || n == "AS" || n == "CC" || n == "SW" || n == "B";
 }
 
 template <class KC>
@@ -431,9 +522,13 @@ static std::string run_case(const std::vector<Op>& ops, std::string* dumps) {
         std::unique_ptr<S> s[3];
         // default, allocator-extended and comparator+allocator constructors
         c[0].reset(new C()); s[0].reset(new S());
-        c[1].reset(new C(typename C::allocator_type())); s[1].reset(new S(typename S::allocator_type()));
-        c[2].reset(new C(typename C::key_compare(), typename C::allocator_type()));
+        // over three DIFFERENT arenas (ids 0, 1, 2)
+        c[1].reset(new C(make_alloc<C>(1))); s[1].reset(new S(typename S::allocator_type()));
+        c[2].reset(new C(typename C::key_compare(), make_alloc<C>(2)));
         s[2].reset(new S(typename S::key_compare(), typename S::allocator_type()));
+        // comparator state every variable must carry (it travels with copy, assignment and every swap)
+        const bool dir0 = typename C::key_compare().gt;
+        bool dir[3] = {dir0, dir0, dir0};
         auto& A = verif::AllocLedger::get();
         for (size_t k = 0; k < ops.size(); ++k) {
             const Op& o = ops[k];
@@ -443,6 +538,14 @@ static std::string run_case(const std::vector<Op>& ops, std::string* dumps) {
                 for (auto y = c[o.f[0]]->begin(); y != c[o.f[0]]->end(); ++y) if (Ops<KD, C>::equiv(*c[o.f[0]], KD::kof(*y), o.f[1])) before_run.push_back(KD::dof(*y));
             std::string ri = do_op<KD, C>(c, o);
             long da = A.allocs - a0, df = A.frees - f0;
+            {
+                const std::string& nm = o.name;
+                if ((nm == "AS" || nm == "CC") && o.f[0] != o.f[1]) dir[o.f[0]] = dir[o.f[1]];
+                else if (nm == "SW" || nm == "SWs" || nm == "SWt") std::swap(dir[o.f[0]], dir[o.f[1]]);
+                else if (nm == "CR") dir[o.f[0]] = dir0;
+                else if (nm == "NC") dir[o.f[0]] = (o.f[1] != 0);
+                for (int v = 0; v < 3; ++v) if (c[v]->key_comp().gt != dir[v]) { ri += "!key_comp-state-of-variable-" + std::to_string(v); break; }
+            }
             std::string rs;
             if (KD::dup && KD::ismap && o.name == "E1") {
                 // which of several equal-key entries erase_one removes is left open by the property:
@@ -462,11 +565,15 @@ static std::string run_case(const std::vector<Op>& ops, std::string* dumps) {
             out << ri;
             C& x = *c[o.f[0]];
             bool vok = true; std::string vmsg;
-            try { x.verify(); if (o.f.size() > 1 && (o.name == "SW" || o.name == "SWs" || o.name == "AS" || o.name == "CC")) c[o.f[1]]->verify(); }
+            try { x.verify(); if (o.f.size() > 1 && (o.name == "SW" || o.name == "SWs" || o.name == "SWt" || o.name == "AS" || o.name == "CC")) c[o.f[1]]->verify(); }
             catch (const std::exception& e) { vok = false; vmsg = e.what(); }
             if (!vok) {
                 std::string m; for (char ch : vmsg) { if (ch == ' ' || ch == '\n') m += '_'; else m += ch; }
                 out << "/VERIFYFAIL:" << m.substr(0, 80);
+            } else if (A.errors || verif::Ledger::get().errors) {
+                // allocator / lifetime ledger error: name the operation at which it first shows
+                std::string m; for (char ch : final_status()) { if (ch == ' ') m += '_'; else m += ch; }
+                out << "/LEDGERFAIL:" << m;
             } else {
                 const typename C::tree_stats& st = x.get_stats();
                 out << '/' << da << '.' << df << '.' << st.leaves << '.' << st.inner_nodes << '.' << x.size();
